@@ -68,6 +68,12 @@ def configs(tier, seed):
     if tier == "thorough":
         cfgs.append(dict(name="aim2:r7:add", mech="aim", rounds=7, nb="add", sizes=(2, 2), attrs="ab", workload=[("a", "b")], depth=6,
                          cost=200, timeout=3000, max_paths=3000, core=False))
+    for nb in (["remove"] if tier == "quick" else ["remove", "add"]):
+        for split in ([None] if tier == "quick" else [None, [0.1, 0.1, 0.8]]):
+            for targets in ([[]] if tier == "quick" else [[], ["b"]]):
+                cfgs.append(dict(name="adagrid:%s:split%s:targets%s" % (nb, "default" if split is None else "custom", "".join(targets) or "none"),
+                                 mech="adagrid", nb=nb, split=split, targets=targets, sizes=(2, 2) if not targets else (2, 2, 2),
+                                 attrs="ab" if not targets else "abc", threshold=1.0, cost=60, timeout=2400, max_paths=3000, core=not targets))
     for rounds in ([2, 3] if tier == "quick" else [1, 2, 3, 4]):
         for nb in (["remove"] if tier == "quick" else ["remove", "add"]):
             cfgs.append(dict(name="aim:r%d:%s" % (rounds, nb), mech="aim", rounds=rounds, nb=nb, sizes=(2, 2, 2), depth=3 if tier == "quick" else 4,
@@ -132,6 +138,9 @@ def scenario_for(cfg):
             mm = mech.prepare(V, "mechanism")
             mod = mech.prepare(V, "aim")
             mods = [mod, mm]
+        elif name == "adagrid":
+            mod = mech.prepare(V, "adaptive_grid")
+            mods = [mod]
         pure = name == "mwem" and cfg["noise"] == "laplace"
         if V.symbolic:
             budget = V.real("eps" if pure else "rho", "p")
@@ -149,6 +158,8 @@ def scenario_for(cfg):
                       eps_arg = budget if pure else 1.0
                       out = mod.mwem_pgm(data, eps_arg, 1e-6, workload=[("a", "b"), ("b", "c")], rounds=cfg["rounds"], noise=cfg["noise"],
                                          bounded=cfg["bounded"], pgm_iters=5)
+                  elif name == "adagrid":
+                      out = mod.adagrid(data, 1.0, 1e-6, cfg["threshold"], targets=list(cfg["targets"]), split_strategy=cfg["split"], iters=5)
                   elif name == "aim":
                       M = mod.AIM(1.0, 1e-6, rounds=cfg["rounds"], max_model_size=80)
                       _AIM_DEPTH["n"] = 0
@@ -179,7 +190,9 @@ def run_config(cfg, prop="C05"):
     mw = mech.prepare(V, "mwem+pgm")
     mm = mech.prepare(V, "mechanism")
     aim = mech.prepare(V, "aim")
-    res.functions = shims.fn_fingerprint(mst.MST, mst.measure, mst.compress_domain, mst.select, mst.exponential_mechanism, mst.transform_data,
+    ag = mech.prepare(V, "adaptive_grid")
+    res.functions = shims.fn_fingerprint(ag.adagrid, ag.select, ag.exponential_mechanism, ag.get_identity, ag.get_aggregate, ag.get_permutation_matrix,
+                                         mst.MST, mst.measure, mst.compress_domain, mst.select, mst.exponential_mechanism, mst.transform_data,
                                          mst.reverse_data, mw.mwem_pgm, mw.worst_approximated, aim.AIM.run, aim.AIM.worst_approximated,
                                          aim.AIM.__init__, mm.Mechanism.__init__, mm.Mechanism.exponential_mechanism, mm.Mechanism.gaussian_noise)
     sc = scenario_for(cfg)
@@ -204,6 +217,8 @@ def finding_key(c):
         extra = ":%s:bounded%d" % (cfg["noise"], cfg["bounded"])
     if cfg["mech"] == "aim":
         extra = ":rounds%d" % cfg["rounds"]
+    if cfg["mech"] == "adagrid":
+        extra = ":targets%s" % ("".join(cfg["targets"]) or "none")
     return "%s%s:%s" % (cfg["mech"], extra, what)
 
 
